@@ -15,7 +15,8 @@ EXPLANATION = ("R01.1 on every path of every record-emitting body the format out
                "(NotFound tolerated, other errors propagated); R01.6 timestamp infixes that name a rotated file or a file opened with "
                "truncation pass through the collision check; R01.7 the rotation decision dominates the write. R01.5 also: once index_for_rcurrent returned Ok the stored index is its result on every path (a failing open included); R01.8 the directory listing and filter_files recognise exactly the family (whole-function tables shared with R14.2). R01.9 one clock: every function of the file writer that formats a timestamp into a file name chooses UTC or local time by a boolean input, and at every (transitive) call site that input is the same configuration field - names of the first file and of rotated files sort in the order of logging."
                " R01.10 (shared start table of R06.3/R06.5): at a restart the previous run's current file is looked up under the name this naming writes to and rotated or continued, never truncated."
-               " R01.11 (shared with R18.4): an explicitly triggered rotation reaches the file writer (MultiWriter fan-out rows) and ends in exactly one forced rotation of the state.")
+               " R01.11 (shared with R18.4): an explicitly triggered rotation reaches the file writer (MultiWriter fan-out rows) and ends in exactly one forced rotation of the state."
+               " R01.12 (shared with R06.2): at a restart the number naming continues above every existing rotated file (filtered listing of plain and .gz files, number behind the last `_r`, maximum over all).")
 ASSUMPTIONS = ["BufWriter flushes on drop; Write::write_all writes the whole slice or fails (std)", "format functions are total (user code)"]
 NOT_DECIDED = ["equality of concatenated file contents with the logged sequence for all record lengths/buffer sizes",
                "that file names sort in rotation order (r99999 -> r100000, .restart-NNNN vs suffix order)", "more than 9999 same-second restarts"]
@@ -94,6 +95,11 @@ def run(R, ctx):
     R.check('R01.7', f"{b.path}|decide-before-write", bool(mounts) and any(C.dominates(b, m, wbb) for m in mounts),
             "rotation decision dominates write_all", "write_all is not dominated by the rotation decision", where=b.loc(wbb))
     one_clock_rule(R, ctx)
+    # across a restart the stream stays complete only if the numbering continues above what is there: a start index that is too low renames rCURRENT onto /
+    # truncates a rotated file of the earlier run (start index rules shared with R06.2: listing of plain + .gz, number behind the LAST `_r`, maximum)
+    R.rule('R01.12', 'restart: the numbering continues above every existing rotated file (start index rules shared with R06.2)')
+    import c06 as _c06s
+    _c06s.start_index(Relabel(R, {'R06.2': 'R01.12'}), ctx)
     # explicitly triggered rotations are part of the stream: LoggerHandle::trigger_rotation reaches the file writer through MultiWriter (fan-out rows)
     # and FileLogWriter::rotate ends in exactly one forced rotation of the state (shared with R18.4)
     R.rule('R01.11', 'trigger_rotation reaches the forced rotation of the file writer (fan-out rows shared with R18.4)')
